@@ -65,8 +65,8 @@ def halving_ratio(seed, cases=6):
     for _ in range(n_cases):
         n1, n2 = rng.randint(10, 30), rng.randint(20, 80)
         eff = rng.uniform(0.7, 1.0)
-        Tl = rng.uniform(0.0, 4.0)
-        w_init = rng.uniform(0, 50)
+        Tl = rng.choice((rng.uniform(0.0, 4.0), rng.uniform(0.0, 60.0)))      # below and above the stall torque
+        w_init = rng.uniform(-30, 50)                                          # either sign (the motor may be back-driven)
         D = rng.choice([1, 0.8, 0.6])
 
         def build():
